@@ -95,8 +95,8 @@ Section Median.
     else Filters.nanmedian (Filters.window md w (r - rad) (c - rad)).
   Proof.
     intros ny nx disp mask r c H1 H2 H3 H4. destruct rad_facts as [R0 R1].
-    unfold median_map, Filters.median_filter_disparity, Filters.median_filter. cbv zeta.
-    replace ((ny - w + 1 <? 0) || (nx - w + 1 <? 0)) with false by lia.
+    unfold median_map, Filters.median_filter_disparity, Filters.median_filter. cbv zeta. cbn [fst].
+    replace ((ny <? w) || (nx <? w)) with false by lia.
     fold rad. rewrite loop2_spec by lia.
     replace ((rad <=? r) && (r <? rad + (ny - w + 1)) && (rad <=? c) && (c <? rad + (nx - w + 1))) with true
       by (symmetry; apply band_true4; lia).
